@@ -10,6 +10,7 @@ from fractions import Fraction as F
 import numpy as np
 
 import py2v_viz
+import py2v_gridviz
 from c20_util import (check_voronoi, check_voronoi_poly, clip_polygon_coords, color_ok, colorbar_clim, fr, frl, markers_data, poly_data, quadmesh_data,
                       scatter_data)
 from common import CORPUS, err_code
@@ -17,8 +18,8 @@ from common import CORPUS, err_code
 CONFIG = {
     "cone": ["Base/ListUtil.v", "Base/MixedRadixViz.v", "Model/Store.v", "Model/Viz.v", "Proofs/VizProofs.v",
              "Properties/C20.v", "Model/VizPoly.v", "Proofs/VizPolyProofs.v", "Generated/VizPolyGen.v", "Refine/VizPolyRefine.v",
-             "Properties/C20Poly.v"],
-    "extra_property_files": ["Refine/VizPolyRefine.v", "Properties/C20Poly.v"],
+             "Properties/C20Poly.v", "Model/GridVizFacts.v", "Generated/GridVizGen.v", "Refine/GridVizRefine.v"],
+    "extra_property_files": ["Refine/VizPolyRefine.v", "Properties/C20Poly.v", "Refine/GridVizRefine.v"],
     "trusted": ["Model/Viz.v describes WHAT each ribs.visualize function hands to matplotlib (arrays, coordinates, offsets, "
                 "limits), not how matplotlib rasterises it; matplotlib's ScalarMappable/QuadMesh/PathCollection rendering of "
                 "(array, clim, cmap) is trusted",
@@ -977,6 +978,7 @@ def check(rep, tier, seed, driver):
     matplotlib.use("Agg")
     rng = random.Random(seed)
     py2v_viz.report(rep)
+    py2v_gridviz.report(rep)
     n = 700 if tier == "quick" else 7000
     rep.rule = ("random Grid (1-D/2-D, non-square dims, asymmetric ranges) / CVT (1-D/2-D, unsorted custom centroids) / "
                 "SlidingBoundaries / Proximity archives and 1..5-D archives for parallel axes, filled empty / one elite / partly / "
